@@ -119,7 +119,14 @@ fn explore(api: &Api, kind: Kind, tier: Tier, seed: u64, cx: &mut Cx) {
                     // Curve25519 u-coordinate with bit 255 set or not reduced mod p, which RFC 7748 accepts and the
                     // library keeps verbatim - and point equality rightly says so; whether such an encoding may be
                     // accepted at all is the re-encoding criterion above)
-                    if m != &b[..] && !class().starts_with("alias/") {
+                    // (thorough tier: the 255-value byte menus make millions of accepted encodings; the equality question is
+                    // asked for those that are also in the quick menu - one byte changed by ^01 or ^80 - and for every
+                    // mutant of another class)
+                    let in_quick_menu = !tier.thorough() || m.len() != b.len() || {
+                        let d: Vec<u8> = m.iter().zip(b.iter()).map(|(x, y)| x ^ y).filter(|x| *x != 0).collect();
+                        d.len() != 1 || d[0] == 0x01 || d[0] == 0x80
+                    };
+                    if m != &b[..] && !class().starts_with("alias/") && in_quick_menu {
                         match api.same(kind, &Blob::n(b), &Blob::n(m)) {
                             Ok(true) => {
                                 cx.outcome("TYPED-EQUALITY-IGNORES-BYTES");
